@@ -402,13 +402,18 @@ func (c *Ctx) voteTable(fi *load.FuncInfo, typ string, spec func(b, h, s, k int)
 			}
 		}
 	}
-	// a captured count of the sources (`and := len(a.Strategies)`)
-	kName := ""
+	// locals computed from the number of sources before the loop (`and := len(a.Strategies)`,
+	// `half := len(sources) / 2`) are evaluated with Go's integer semantics for every k
+	type preDef struct {
+		name string
+		expr ast.Expr
+	}
+	var preDefs []preDef
 	for _, s := range pre {
-		if as, ok := s.(*ast.AssignStmt); ok && len(as.Lhs) == 1 && len(as.Rhs) == 1 {
-			if call, ok := as.Rhs[0].(*ast.CallExpr); ok {
-				if id, ok := call.Fun.(*ast.Ident); ok && id.Name == "len" && strings.Contains(exprString(call.Args[0]), "Strategies") {
-					kName = exprString(as.Lhs[0])
+		if as, ok := s.(*ast.AssignStmt); ok && len(as.Lhs) == len(as.Rhs) {
+			for i, l := range as.Lhs {
+				if id, ok := l.(*ast.Ident); ok {
+					preDefs = append(preDefs, preDef{id.Name, as.Rhs[i]})
 				}
 			}
 		}
@@ -428,17 +433,21 @@ func (c *Ctx) voteTable(fi *load.FuncInfo, typ string, spec func(b, h, s, k int)
 						env[nm] = sym.N(int64(vals[i]))
 					}
 				}
-				if kName != "" {
-					env[kName] = sym.N(int64(k))
+				ienv := map[string]int64{}
+				for _, d := range preDefs {
+					if v, ok := intEval(d.expr, ienv, int64(k)); ok {
+						ienv[d.name] = v
+						env[d.name] = sym.N(v)
+					}
 				}
 				point := fmt.Sprintf("k=%d buy=%d hold=%d sell=%d", k, b, h, s)
+				run.Count("table_points", 1)
 				p := c.one(m, env, "decision-table", site, point, fi.Decl)
 				if p == nil {
-					return
+					continue
 				}
 				got, _ := pathAction(p)
 				want := spec(b, h, s, k)
-				run.Count("table_points", 1)
 				run.Oblige(got == want)
 				if got != want {
 					c.violate("decision-table", site, point+"->"+got, decide.Pos(), fmt.Sprintf("with %s the vote yields %s, documented: %s (%s)", point, got, want, doc))
@@ -1085,4 +1094,52 @@ func derivesFrom(info *types.Info, fd *ast.FuncDecl, e ast.Expr, suffix string) 
 		return false
 	}
 	return walk(e, 0)
+}
+
+// intEval evaluates an integer expression with Go semantics; len(...) of anything is k.
+func intEval(e ast.Expr, env map[string]int64, k int64) (int64, bool) {
+	switch x := e.(type) {
+	case *ast.ParenExpr:
+		return intEval(x.X, env, k)
+	case *ast.BasicLit:
+		var v int64
+		if _, err := fmt.Sscan(x.Value, &v); err == nil {
+			return v, true
+		}
+	case *ast.Ident:
+		v, ok := env[x.Name]
+		return v, ok
+	case *ast.CallExpr:
+		if id, ok := x.Fun.(*ast.Ident); ok && id.Name == "len" {
+			return k, true
+		}
+	case *ast.UnaryExpr:
+		if x.Op == token.SUB {
+			v, ok := intEval(x.X, env, k)
+			return -v, ok
+		}
+	case *ast.BinaryExpr:
+		l, ok1 := intEval(x.X, env, k)
+		r, ok2 := intEval(x.Y, env, k)
+		if !ok1 || !ok2 {
+			return 0, false
+		}
+		switch x.Op {
+		case token.ADD:
+			return l + r, true
+		case token.SUB:
+			return l - r, true
+		case token.MUL:
+			return l * r, true
+		case token.QUO:
+			if r != 0 {
+				return l / r, true
+			}
+		case token.REM:
+			if r != 0 {
+				return l % r, true
+			}
+		}
+	}
+	return 0, false
 }
